@@ -80,7 +80,7 @@ func innerObjects(kind string, parent *Node, key string) []*Node {
 func wrapperDeletions(v *Node, levels int, inner *StructSpec) []*Node {
 	var out []*Node
 	if levels == 0 {
-		if v.K == "obj" {
+		if v.K == "obj" && inner != nil {
 			return deletions(inner, v)
 		}
 		return nil
@@ -177,6 +177,19 @@ func deletions(spec *StructSpec, doc *Node) []*Node {
 						c := doc.clone()
 						v := c.O[i].V
 						v.O = append(v.O[:j:j], v.O[j+1:]...)
+						out = append(out, c)
+					}
+				}
+			}
+		}
+		if f.Kind == kIntSlice2 || f.Kind == kStrSlice2 || f.Kind == kMapSlice2 {
+			// elements of the outer and of the inner lists are removable (the innermost values
+			// are atoms and stay whole)
+			for i := range doc.O {
+				if doc.O[i].F && doc.O[i].Key == f.Key() {
+					for _, nv := range wrapperDeletions(doc.O[i].V, 2, nil) {
+						c := doc.clone()
+						c.O[i].V = nv
 						out = append(out, c)
 					}
 				}
@@ -372,6 +385,33 @@ func candidates(c *Case) []*Case {
 						setMember(o, inf.Key(), want)
 						mk(c.Spec, d, c.Variant)
 					}
+				}
+			}
+		}
+	}
+	// give a missing scalar-kind field its plain valid value
+	for _, f := range c.Spec.Fields {
+		if f.Kind != kEmbed && isScalarKind(f.Kind) {
+			if _, ok := c.Doc.get(f.Key()); !ok {
+				d := c.Doc.clone()
+				d.O = append(d.O, fkv(f.Key(), validValue(f.Kind)))
+				mk(c.Spec, d, c.Variant)
+			}
+		}
+		if f.Inner == nil {
+			continue
+		}
+		for _, inf := range f.Inner.Fields {
+			if !isScalarKind(inf.Kind) {
+				continue
+			}
+			n := len(innerObjects(f.Kind, c.Doc, f.Key()))
+			for oi := 0; oi < n; oi++ {
+				d := c.Doc.clone()
+				o := innerObjects(f.Kind, d, f.Key())[oi]
+				if _, ok := o.get(inf.Key()); !ok {
+					o.O = append(o.O, fkv(inf.Key(), validValue(inf.Kind)))
+					mk(c.Spec, d, c.Variant)
 				}
 			}
 		}
@@ -688,7 +728,7 @@ func classify(c *Case) *classified {
 		return v.(*classified)
 	}
 	// determinism probe: the same case must give the same outcome every time
-	probe := sigSet(c, 3)
+	probe := sigSet(c, 10)
 	probe[c.Sig] = true
 	if len(probe) > 1 {
 		m := shrinkFlaky(c)
